@@ -5,7 +5,9 @@ use super::hist::*;
 use super::names::*;
 use crate::ctx::{fnv, Ctx, Violation};
 use crate::par::par_for;
-use crate::rsast::parse_rendered;
+use crate::oracle::Binding;
+use crate::refmodel::SNode;
+use crate::rsast::{read_structs, resolve, RStruct, RTree};
 use crate::subject::{self, Preset};
 use serde_json::{json, Value};
 use std::collections::HashSet;
@@ -72,6 +74,38 @@ fn judge_name(name: &str, path: &[String], unique_own_name: bool, first: bool) -
     Ok(())
 }
 
+/// pair every struct with the XML path of its position by following the resolved struct tree and
+/// the serde names of the struct-typed fields (robust against any emission order). `None` when
+/// the rendering and the reference schema do not have the same shape (that is C03's business)
+fn pair_positions(expected: &SNode, root: &str, structs: &[RStruct], tree: &RTree) -> Option<Vec<(usize, Vec<String>)>> {
+    fn walk(e: &SNode, path: &mut Vec<String>, structs: &[RStruct], t: &RTree, b: &Binding, out: &mut Vec<(usize, Vec<String>)>) -> Option<()> {
+        out.push((t.idx, path.clone()));
+        let mut used: Vec<usize> = Vec::new();
+        let mut kids: Vec<&(usize, RTree)> = t.kids.iter().collect();
+        kids.sort_by_key(|(fi, _)| *fi);
+        for (fi, sub) in kids {
+            let f = &structs[t.idx].fields[*fi];
+            let ci = e
+                .children
+                .iter()
+                .enumerate()
+                .position(|(ci, c)| !used.contains(&ci) && !c.node.string_typed() && b.child_bound(&c.name) == f.bound())?;
+            used.push(ci);
+            path.push(e.children[ci].name.clone());
+            walk(&e.children[ci].node, path, structs, sub, b, out)?;
+            path.pop();
+        }
+        // every non-String child position must have been paired
+        if e.children.iter().enumerate().any(|(ci, c)| !c.node.string_typed() && !used.contains(&ci)) {
+            return None;
+        }
+        Some(())
+    }
+    let mut out = Vec::new();
+    walk(expected, &mut vec![root.to_string()], structs, tree, &Binding::quick_xml(), &mut out)?;
+    Some(out)
+}
+
 pub fn judge(docs: &[&DocEntry], rendering: &str, rank: u64) -> Vec<Violation> {
     let mut out = Vec::new();
     let mk = |class: &str, msg: String| Violation {
@@ -80,19 +114,28 @@ pub fn judge(docs: &[&DocEntry], rendering: &str, rank: u64) -> Vec<Violation> {
         replay: docs_json(docs),
         rank,
     };
-    let structs = match parse_rendered(rendering) {
+    let structs = match read_structs(rendering) {
         Ok(s) => s,
         Err(e) => return vec![mk("unreadable", e)],
     };
     let expected = expected_schema(docs);
     let root = docs.iter().find_map(|d| d.root()).map(|r| r.name.clone()).unwrap_or_default();
-    let paths = struct_paths(&expected, &root);
-    if paths.len() != structs.len() {
-        // the number of structs is C03's business; without the pairing nothing can be said here
-        return vec![mk("struct-count", format!("{} structs for {} non-String positions", structs.len(), paths.len()))];
+    // without a pairing of structs and positions nothing can be said about names; a rendering whose
+    // shape differs from the reference schema is C03's / C04's business, not a naming violation
+    let tree = match resolve(&structs) {
+        Ok(t) => t,
+        Err(_) => return Vec::new(),
+    };
+    let paired = match pair_positions(&expected, &root, &structs, &tree) {
+        Some(p) => p,
+        None => return Vec::new(),
+    };
+    if structs.is_empty() || paired.iter().all(|(i, _)| *i != 0) {
+        return Vec::new();
     }
     let every = all_paths(&expected, &root);
-    for (i, (st, path)) in structs.iter().zip(paths.iter()).enumerate() {
+    for (i, path) in paired.iter().map(|(i, p)| (*i, p)) {
+        let st = &structs[i];
         let own = pascal(path.last().unwrap());
         let occurrences = every.iter().filter(|p| pascal(p.last().unwrap()) == own).count();
         if own.is_empty() {
@@ -132,13 +175,13 @@ fn sweep(ctx: &Ctx, label: &str, names: &[PoolName], k: usize, params: &TreePara
                 for h in histories {
                     let refs: Vec<&DocEntry> = h.iter().collect();
                     acc.0 += 1;
-                    if let Ok(el) = run_history(&refs) {
+                    if let Ok(el) = run_history_rendering(&refs) {
                         let text = subject::render(&el, Preset::QuickXml, false);
                         if acc.1.insert(fnv(&text)) {
                             let vs = judge(&refs, &text, rank);
                             ctx.report_all(vs);
                             // non-trivial: some struct name is qualified
-                            if let Ok(structs) = parse_rendered(&text) {
+                            if let Ok(structs) = read_structs(&text) {
                                 let e = expected_schema(&refs);
                                 let paths = struct_paths(&e, &refs[0].root().map(|r| r.name.clone()).unwrap_or_default());
                                 if structs.iter().zip(paths.iter()).any(|(s, p)| s.name != pascal(p.last().unwrap())) {
@@ -183,9 +226,10 @@ pub fn run(ctx: &Ctx) {
     sweep(ctx, "names {a,b,c}, all assignments", &plain, 3, &TreeParams { min_nodes: 0, max_nodes: nodes, max_decorated: 1, root_from_subset: true, shard: (0, 1) });
     sweep(ctx, "concatenation names", &concat, 3, &TreeParams { min_nodes: 1, max_nodes: 4, max_decorated: 1, root_from_subset: false, shard: (0, 1) });
     sweep(ctx, "adversarial pool, 2-subsets", &adv, 2, &TreeParams { min_nodes: 1, max_nodes: ctx.tier.pick(3, 4), max_decorated: 1, root_from_subset: false, shard: (0, 1) });
+    deep_chains(ctx);
     ctx.set(
         "rule",
-        json!("every ordered tree shape up to the node bound with every assignment of names (same name under different parents, at different depths, under itself, next to unique names), at most one node decorated with text/attributes (so that some positions are String-typed and have no struct), as one document and split into two. Oracle per struct, its path recovered from the DOM reference in emission order: name = concatenated PascalCase names of the element and its j nearest ancestors (any j), optionally followed by a numeric suffix; j = 0 for the first struct and for every element whose PascalCase name occurs at a single position (String-typed positions count). distinct_nontrivial = distinct renderings in which at least one struct name is qualified or suffixed"),
+        json!("every ordered tree shape up to the node bound with every assignment of names (same name under different parents, at different depths, under itself, next to unique names), at most one node decorated with text/attributes (so that some positions are String-typed and have no struct), as one document and split into two. Oracle per struct, its path recovered from the DOM reference in emission order: name = concatenated PascalCase names of the element and its j nearest ancestors (any j), optionally followed by a numeric suffix; j = 0 for the first struct and for every element whose PascalCase name occurs at a single position (String-typed positions count). Histories of two documents are rendered after the first step as well (a rendering must not influence a later one). Plus chains of depth 1..150 (distinct names per level; two alternating names; one name). distinct_nontrivial = distinct renderings in which at least one struct name is qualified or suffixed"),
     );
     ctx.assume("PascalCase form = convert_string 0.2.0 `to_pascal_case` (the crate the library uses), called directly by the harness");
 }
@@ -210,5 +254,48 @@ pub fn replay(ctx: &Ctx, case: &Value) {
     }
     if seen[0] != seen[1] {
         ctx.machinery_error("replay is not deterministic".into());
+    }
+}
+
+/// nesting chains up to depth 150: every level a name of its own, two alternating names, one name
+fn deep_chains(ctx: &Ctx) {
+    let max_depth = 150u64;
+    let res = par_for(
+        max_depth * 3,
+        ctx.threads,
+        1,
+        Some(ctx.deadline),
+        |_| 0u64,
+        |acc, i| {
+            let depth = (i / 3 + 1) as usize;
+            let name = |level: usize| match i % 3 {
+                0 => format!("e{}", level),
+                1 => (if level % 2 == 0 { "a" } else { "b" }).to_string(),
+                _ => "a".to_string(),
+            };
+            let mut node: Option<crate::dom::Node> = None;
+            for level in (0..depth).rev() {
+                let mut e = crate::dom::Node::new(&name(level));
+                if level + 1 == depth {
+                    e.attrs.push(("k".into(), "v".into()));
+                }
+                if let Some(ch) = node.take() {
+                    e.items.push(crate::dom::Item::Elem(ch));
+                }
+                node = Some(e);
+            }
+            let d = DocEntry::from_root(node.unwrap());
+            let refs = [&d];
+            *acc += 1;
+            if let Ok(el) = run_history(&refs) {
+                let text = subject::render(&el, Preset::QuickXml, false);
+                ctx.report_all(judge(&refs, &text, (1 << 55) | i));
+            }
+        },
+    );
+    ctx.add("evaluations", res.accs.iter().sum::<u64>());
+    ctx.set("deep_chains", json!({"max_depth": max_depth, "templates": 3, "done": res.processed}));
+    if !res.complete {
+        ctx.set("exhaustive", json!(false));
     }
 }
